@@ -9,6 +9,7 @@ R15.4 shared constants agree (copy limit, S_IFDIR/S_IFMT in both crates, hash le
 from __future__ import annotations
 
 import ast
+import os
 import re
 import stat as pystat
 
@@ -74,7 +75,50 @@ def bind(call: ast.Call, names: list[str], required: int, kwonly: set[str] = fro
     return True, ""
 
 
+def _py_rejections(fn_node) -> list[list[str]]:
+    """For each `raise` of a function: the sorted local names the decision depends on."""
+    parents = {}
+    for n in ast.walk(fn_node):
+        for c in ast.iter_child_nodes(n):
+            parents[c] = n
+    a = fn_node.args
+    out = []
+    for r in ast.walk(fn_node):
+        if not isinstance(r, ast.Raise):
+            continue
+        n = r
+        subj = None
+        while n in parents:
+            p = parents[n]
+            if isinstance(p, ast.If) and (n in p.body or n in p.orelse):
+                subj = {x.id for x in ast.walk(p.test) if isinstance(x, ast.Name)}
+                break
+            if isinstance(p, ast.ExceptHandler):
+                t = parents.get(p)
+                if isinstance(t, ast.Try):
+                    subj = {x.id for s_ in t.body for x in ast.walk(s_) if isinstance(x, ast.Name) and isinstance(x.ctx, ast.Load)}
+                break
+            if isinstance(p, (ast.FunctionDef, ast.AsyncFunctionDef)):
+                break
+            n = p
+        if subj is None:
+            subj = {"<unconditional>"}
+        # builtins and module-level helpers are not subjects
+        subj = {x for x in subj if not x[0].isupper() and x not in ("int", "len", "isinstance", "bytes", "str", "ord", "type", "min", "max")}
+        out.append(sorted(subj))
+    return sorted(out)
+
+
+def twin_table(duals) -> dict:
+    out = {}
+    for (rel, public), (pydef, rfn, rrel) in duals.items():
+        t = rfn.text()
+        out[f"{rel}::{public}"] = {"python": _py_rejections(pydef.node), "rust_errors": t.count("new_err")}
+    return out
+
+
 def run(prog: Program, rep, tier="quick"):
+    rep.rule("R15.5", "SIBLINGS-AGREE through time: the twins reject on the subjects confirmed in rules/c15_twins.json (validation drift)")
     rep.rule("R15.1", "substitution table: Python def <-> registered Rust #[pyfunction] for every import-time substitution")
     rep.rule("R15.2", "every in-repo call of a dual function binds under the Python and the Rust signature")
     rep.rule("R15.3", "no unwrap on extracted input / unbounded shift / i32 midpoint / header-sized allocation in the crates")
@@ -108,6 +152,37 @@ def run(prog: Program, rep, tier="quick"):
         rep.ob("R15.1", rel, public, f"Python twin of {rname} exists", pydef is not None, "", pydef.node.lineno if pydef else 0)
         if pydef is not None:
             duals[(rel, public)] = (pydef, rfn, rrel)
+    # ---- R15.5 validation drift between twins: which inputs each side REJECTS is part of "same result or both fail".
+    # Per Python twin: the set of local names each explicit rejection depends on (the test guarding the raise, or the try
+    # body whose failure is converted); per Rust twin: the number of error constructions.  The confirmed table is the
+    # reference (rules/c15_twins.json, regenerate with tools/gen_c15_twins.py after confirming a change on both sides).
+    import json as _json
+    tw_path = os.path.join(os.path.dirname(os.path.abspath(__file__)), "c15_twins.json")
+    try:
+        with open(tw_path) as fh:
+            frozen = _json.load(fh)
+    except OSError:
+        frozen = None
+    current = twin_table(duals)
+    if os.environ.get("VERIF_C15_DUMP"):
+        with open(os.environ["VERIF_C15_DUMP"], "w") as fh:
+            _json.dump(current, fh, indent=1, sort_keys=True)
+    if frozen is None:
+        raise AnalysisError("rules/c15_twins.json (confirmed validation table of the twins) is missing")
+    for key, cur in sorted(current.items()):
+        ref = frozen.get(key)
+        if ref is None:
+            rep.note(f"R15.5: no confirmed validation table for {key}")
+            continue
+        pydef, rfn, rrel = duals[tuple(key.split("::"))]
+        new_py = [x for x in cur["python"] if x not in ref["python"]]
+        gone_py = [x for x in ref["python"] if x not in cur["python"]]
+        rep.ob("R15.5", pydef.module.rel, pydef.qual, "the Python twin rejects on the same subjects as when it was confirmed against the Rust twin",
+               not new_py and not gone_py,
+               (f"new rejection depending on {new_py}" if new_py else f"rejection depending on {gone_py} is gone") +
+               ": one side now refuses (or accepts) inputs the other side does not", pydef.node.lineno)
+        rep.ob("R15.5", rrel, rfn.name, "the Rust twin constructs the same number of errors as when it was confirmed against the Python twin",
+               cur["rust_errors"] == ref["rust_errors"], f"{cur['rust_errors']} error sites, confirmed {ref['rust_errors']}", rfn.line)
     # ---- R15.2
     n_calls = 0
     for (rel, public), (pydef, rfn, rrel) in sorted(duals.items()):
